@@ -101,3 +101,16 @@ Theorem C05_default_batch_wrong_count :
     length proofs <> length (groups qs) -> default_batch_check Comm Proof St check cs qs ev proofs st = Panic.
 Proof. exact @default_batch_wrong_count. Qed.
 Print Assumptions C05_default_batch_wrong_count.
+
+(* IPA's own batch verifier (one final key check on the random combination): for proofs whose final key is the commitment
+   to the check polynomial their succinct check derives (as the prover builds them), the batch is accepted for ANY
+   randomizers unless the shape check or succinct check of some group failed - i.e. exactly when every group passes *)
+From PC Require Import Schemes.LC Schemes.Marlin Schemes.IPA Schemes.IPABatch Proofs.IPABatchFacts.
+Theorem C05_ipa_batch_accepts_when_all_groups_pass :
+  forall (FO : FieldOps) (FL : FieldLaws FO) d cs qs ev proofs chal hchal vtape b rest hrest dr,
+    Forall (key_ok d) proofs ->
+    i_batch_check d cs qs ev proofs chal hchal vtape = Ok (b, rest, hrest, dr) ->
+    b = true \/
+    exists r h n, ibc_loop d (label_map cs) ev (groups qs) proofs chal hchal vtape f1 [] [] O = Ok (None, r, h, n).
+Proof. exact @ipa_batch_complete. Qed.
+Print Assumptions C05_ipa_batch_accepts_when_all_groups_pass.
